@@ -219,6 +219,8 @@ PrintPath(p) == Flat(Map(PrintElem, p))
 (* the no-panic half: arbitrary strings                                      *)
 \* n s u v r = ; i g b 1 and a three byte character
 Alpha04 == {110, 115, 117, 118, 114, 61, 59, 105, 103, 98, 49, 8364}
+\* thorough, for the numeric range / date / guid parsers: 0 1 9 : , - T Z . +
+Alpha04b == {48, 49, 57, 58, 44, 45, 84, 90, 46, 43}
 \* the reserved characters, a digit, a letter, a two byte character
 Alpha05 == Reserved \cup {49, 97, 233}
 \* one-character mutations of a printed text: replace / insert / delete
@@ -236,7 +238,7 @@ MutBase04 == {PrintNodeId([ns |-> 10, id |-> [k |-> "i", n |-> Big(255)]]),
               PrintDateTime([y |-> 1601, mo |-> 1, d |-> 1, h |-> 0, mi |-> 0, s |-> 0, t |-> 1], "display")}
 MutBase05 == {PrintPath(<<e>>) : e \in PathElems} \cup {PrintPath(<<e1, e2>>) : e1 \in PathElems, e2 \in {Elem(Hier, Fwd, Tgt(0, <<97>>))}}
 \* every string up to length n over the alphabet and the mutants
-Strings04(n) == SeqsUpTo(Alpha04, n) \cup UNION {Mutants(t, Alpha04) : t \in MutBase04}
+Strings04(n, deep) == SeqsUpTo(Alpha04, n) \cup (IF deep THEN SeqsUpTo(Alpha04b, n) ELSE {}) \cup UNION {Mutants(t, Alpha04) : t \in MutBase04}
 Strings05(n) == SeqsUpTo(Alpha05, n) \cup UNION {Mutants(t, Alpha05) : t \in MutBase05}
 
 -----------------------------------------------------------------------------
@@ -247,7 +249,7 @@ RoundTrip04(deep) ==
   \cup {[t |-> "guid", gid |-> v] : v \in GuidPayloads} \cup {[t |-> "range", rng |-> v] : v \in Ranges(deep)}
   \cup {[t |-> "datetime", dt |-> v, form |-> f] : v \in DateTimes, f \in DtForms}
 RoundTrip05(deep, nameMax, pathMax) == {[t |-> "path", path |-> p] : p \in Paths(deep, nameMax, pathMax)}
-Cases04(n, deep) == RoundTrip04(deep) \cup {ParseCase(s) : s \in Strings04(n)}
+Cases04(n, deep) == RoundTrip04(deep) \cup {ParseCase(s) : s \in Strings04(n, deep)}
 Cases05(n, deep, nameMax, pathMax) == RoundTrip05(deep, nameMax, pathMax) \cup {ParseCase(s) : s \in Strings05(n)}
 
 ValueOf(c) == CASE c.t = "nodeid" -> c.nid [] c.t = "expanded" -> c.xid [] c.t = "guid" -> c.gid [] c.t = "range" -> c.rng
